@@ -489,6 +489,7 @@ def get_package_generator(
         custom_scalars=settings.scalars,
         convert_to_snake_case=settings.convert_to_snake_case,
         plugin_manager=plugin_manager,
+        input_types_module_name=settings.input_types_module_name,
     )
     custom_fields_typing_generator = CustomFieldsTypingGenerator(schema=schema)
     custom_query_generator = None
@@ -501,6 +502,7 @@ def get_package_generator(
             convert_to_snake_case=settings.convert_to_snake_case,
             custom_scalars=settings.scalars,
             plugin_manager=plugin_manager,
+            input_types_module_name=settings.input_types_module_name,
             arguments_generator=ArgumentsGenerator(
                 schema=schema,
                 convert_to_snake_case=settings.convert_to_snake_case,
@@ -518,6 +520,7 @@ def get_package_generator(
             convert_to_snake_case=settings.convert_to_snake_case,
             custom_scalars=settings.scalars,
             plugin_manager=plugin_manager,
+            input_types_module_name=settings.input_types_module_name,
             arguments_generator=ArgumentsGenerator(
                 schema=schema,
                 convert_to_snake_case=settings.convert_to_snake_case,
